@@ -109,7 +109,7 @@ CHECKS = {
             "application and every running protocol that saw the connection are told closed exactly once within a bounded window, never before established; dial(peer) afterwards is not "
             "AlreadyConnected and yields an outcome; after a protocol shutdown new connections are still established for the application and the surviving protocols, a surviving "
             "protocol can open a substream on the existing connection (or is told it closed), and a request-response round trip works on the re-established connection.",
-            "'Protocols before the manager' is not observable at the public boundary (different consumer tasks) and is not decided here; overlapping double connections are covered by C08's model.",
+            "'Protocols before the manager' is decided by a directed scenario on the scripted world (full protocol channel, hand-polled report future); overlapping double connections are covered by C08's model.",
             "DESIGN.md §3 C07"),
     "C16": ("fault_enumeration",
             "operation ledger over real Litep2p nodes on loopback: every Kademlia operation gets exactly one terminal event within a bounded window under enumerated peer placements and injected faults",
